@@ -644,6 +644,12 @@ func (this *Writer) processBlock() error {
 			nbTasks = min(nbTasks, this.nbInputBlocks)
 		}
 
+		// The input size is only a hint: all the buffered blocks must be processed
+		// (Write fills up to this.jobs buffers before calling this function)
+		if nbBuffered := (this.available + this.blockSize - 1) / this.blockSize; nbTasks < nbBuffered {
+			nbTasks = min(nbBuffered, this.jobs)
+		}
+
 		jobsPerTask, _ = internal.ComputeJobsPerTask(make([]uint, nbTasks), uint(this.jobs), uint(nbTasks))
 	} else {
 		jobsPerTask = []uint{uint(this.jobs)}
